@@ -143,11 +143,29 @@ pub fn cell_order(order: u64) -> Vec<(&'static str, &'static str)> {
 pub fn run_leaf(backend: &str, leaf: &'static str, hosts: &[&'static str], rt: &tokio::runtime::Runtime, order: u64) -> Result<Vec<CellResult>, String> {
     let d = fixtures_dir();
     let body = response_body();
-    let server = Server::start(Arc::new(move |_r| Script::ok(body.clone())), Some(TlsIdentity { cert_pem_path: d.join(format!("{leaf}.pem")), key_pem_path: d.join(format!("{leaf}.key.pem")) })).map_err(|e| format!("tls server for {leaf}: {e}"))?;
+    let ident = || TlsIdentity { cert_pem_path: d.join(format!("{leaf}.pem")), key_pem_path: d.join(format!("{leaf}.key.pem")) };
+    let b4 = body.clone();
+    let server = Server::start(Arc::new(move |_r| Script::ok(b4.clone())), Some(ident())).map_err(|e| format!("tls server for {leaf}: {e}"))?;
+    // a second listener on the IPv6 loopback for the IPv6-literal target (skipped when ::1 is unavailable)
+    let b6 = body.clone();
+    let server6 = Server::start_on("::1", Arc::new(move |_r| Script::ok(b6.clone())), Some(ident())).ok();
     let mut out = Vec::new();
     for &host in hosts {
         for client in ["blocking", "async"] {
             for (flag, root) in cell_order(order) {
+                // IP-literal targets: the fixtures' SAN is DNS:localhost only, so every certificate
+                // mismatches the host; only the cells that would otherwise be accepted are interesting
+                if host != "localhost" && !(root == "issuing-ca-pem" && flag != "true") {
+                    continue;
+                }
+                let server = if host == "[::1]" {
+                    match &server6 {
+                        Some(s) => s,
+                        None => continue,
+                    }
+                } else {
+                    &server
+                };
                 {
                     let cell = Cell { backend: backend.to_string(), client, flag, root, leaf, host };
                     let uri: Uri = format!("ipps://{host}:{}/ipp/print", server.port).parse().unwrap();
@@ -220,7 +238,8 @@ pub fn run_leaf(backend: &str, leaf: &'static str, hosts: &[&'static str], rt: &
 /// The whole matrix for this binary's TLS backend; leaves run in parallel.
 pub fn run_matrix(backend: &str, with_ip_target: bool, order: u64) -> Result<Vec<CellResult>, String> {
     let rt = tokio::runtime::Builder::new_multi_thread().worker_threads(2).enable_all().build().map_err(|e| format!("{e}"))?;
-    let hosts: Vec<&'static str> = if with_ip_target { vec!["localhost", "127.0.0.1"] } else { vec!["localhost"] };
+    let _ = with_ip_target;
+    let hosts: Vec<&'static str> = vec!["localhost", "127.0.0.1", "[::1]"];
     let mut all = Vec::new();
     let results: Vec<Result<Vec<CellResult>, String>> = std::thread::scope(|sc| {
         let hs: Vec<_> = LEAVES
@@ -249,7 +268,7 @@ pub fn replay_cell(backend: &str, v: &Value) -> Result<CellResult, String> {
     let leaf = find(&LEAVES, "leaf").ok_or("leaf")?;
     let want = (v.get("client").and_then(|s| s.as_str()).unwrap_or("").to_string(), v.get("flag").and_then(|s| s.as_str()).unwrap_or("").to_string(), v.get("root").and_then(|s| s.as_str()).unwrap_or("").to_string(), v.get("host").and_then(|s| s.as_str()).unwrap_or("localhost").to_string());
     let rt = tokio::runtime::Builder::new_multi_thread().worker_threads(2).enable_all().build().map_err(|e| format!("{e}"))?;
-    let hosts: Vec<&'static str> = if want.3 == "127.0.0.1" { vec!["127.0.0.1"] } else { vec!["localhost"] };
+    let hosts: Vec<&'static str> = if want.3 == "127.0.0.1" { vec!["127.0.0.1"] } else if want.3 == "[::1]" { vec!["[::1]"] } else { vec!["localhost"] };
     for r in run_leaf(backend, leaf, &hosts, &rt, v.get("order").and_then(|o| o.as_u64()).unwrap_or(0))? {
         if r.cell.client == want.0 && r.cell.flag == want.1 && r.cell.root == want.2 {
             return Ok(r);
